@@ -253,7 +253,7 @@ def graphs(ctx, configs: Optional[List[Config]] = None) -> List[Graph]:
     out = []
     I = None
     for c in configs:
-        k = (ctx.ix.digest + ctx.ix.repo, c.name)
+        k = (ctx.ix.digest + ctx.ix.repo + ctx.ix.serial, c.name)
         if k not in _GRAPH_CACHE:
             if I is None:
                 I = SpecInterp(ctx.ix)
